@@ -62,7 +62,7 @@ COMMENTS = ["#c%d", "# ok %d", "#=%d", "##x%d", "#é%d", "# id-like"]
 PATTERNS = ['"a\\\\d+"', '"é\\\\d+"', '"ééééé\\\\w"', '"[a-z]+"', '`raw\\d`', '"q\\\\.r"', '"tick`\\\\d"', '"\\\\\\\\x"']
 
 
-PKG_TAILS = ["", "", "", "_test", ".integration_tests", ".a_test_b", "_tests", ".unit_test"]
+PKG_TAILS = ["", "", "", "_test", ".integration_tests", ".a_test_b", "_tests", ".unit_test", "_test.helpers", "_test.sub_test"]
 
 
 def gen_module(rng, idx, pkg=None):
@@ -91,7 +91,10 @@ def gen_module(rng, idx, pkg=None):
             lines.append("t%d = 3 %s" % (k, "#é = #"))
         if rng.random() < 0.5:
             lines.append("")
-    return "\n".join(lines) + "\n"
+    text = "\n".join(lines) + "\n"
+    if rng.random() < 0.12:
+        text = text.replace("\n", "\r\n")
+    return text
 
 
 FIXABLE = ["use-assignment-operator", "no-whitespace-comment", "non-raw-regex-pattern", "opa-fmt", "directory-package-mismatch"]
@@ -120,6 +123,34 @@ def gen_fix_cases(ctx, tag, n):
             enable = [r for r in enable if r != "directory-package-mismatch"] or ["no-whitespace-comment"]
         cases.append({"id": k, "op": "c11.fix", "files": files, "enable": enable, "root": "/w"})
     return cases
+
+
+def bulk_cases(first_id):
+    """more fixable violations than any small bound on the number of lint->fix rounds: one file with many bad comments
+    and assignments, and many misplaced files"""
+    out = []
+    body = "package p0\n\n# id:0\nimport rego.v1\n\n" + "".join("#c%d\nr%d = %d\n\n" % (i, i, i) for i in range(14))
+    out.append({"id": first_id, "op": "c11.fix", "files": {"/w/p0/f0.rego": body},
+                "enable": ["use-assignment-operator", "no-whitespace-comment"], "root": "/w", "_directed": True})
+    files = {"/w/wrong/f%d.rego" % i: "package q%d\n\n# id:%d\nimport rego.v1\n\nx := %d\n" % (i, i, i) for i in range(13)}
+    out.append({"id": first_id + 1, "op": "c11.fix", "files": files, "enable": ["directory-package-mismatch"], "root": "/w",
+                "_directed": True})
+    # CRLF files: line endings inside multi-line raw strings are part of a value
+    crlf = ("package p0\n\n# id:0\nimport rego.v1\n\n#bad comment\nx = 1\ns := `line one\nline two`\n"
+            "m if regex.match(\"a\\\\d\", input.s)\n").replace("\n", "\r\n")
+    for en in (["no-whitespace-comment"], ["use-assignment-operator"], ["non-raw-regex-pattern"],
+               ["no-whitespace-comment", "use-assignment-operator", "non-raw-regex-pattern"]):
+        out.append({"id": first_id + len(out), "op": "c11.fix", "files": {"/w/p0/f0.rego": crlf}, "enable": en, "root": "/w",
+                    "_directed": True})
+    # shapes that were real defects of the pinned tree (use-assignment-operator): an else clause that already uses
+    # ":=" on a line containing "else=", and heads whose value starts on the next line
+    shapes = ['x := 1 if {\n\tinput.y\n} else := 2 if input.x == "else="\n',
+              'y = 1 if {\n\tinput.y\n} else = 3 if input.z == "else := "\n',
+              'h["x=y"] =\n\t3\n', 'k =\n\t{"a=b": 1}\n', 'f(x) =\n\t[x, "="]\n']
+    for sh in shapes:
+        out.append({"id": first_id + len(out), "op": "c11.fix", "files": {"/w/p0/f0.rego": "package p0\n\n# id:0\nimport rego.v1\n\n" + sh},
+                    "enable": ["use-assignment-operator", "no-whitespace-comment"], "root": "/w", "_directed": True})
+    return out
 
 
 def grid_cases(first_id):
@@ -170,6 +201,7 @@ def run(ctx):
     part_fn(ctx)
     cases = gen_fix_cases(ctx, "c11", 60 if ctx.quick else 800)
     cases += grid_cases(len(cases))
+    cases += bulk_cases(len(cases))
     impl = ctx.impl(cases, timeout=3000, procs=12)
     for c in cases:
         judge_c11(ctx, c, impl[c["id"]])
